@@ -40,6 +40,14 @@ class AMock:
         raise AbsRaise('AttributeError', node, implicit=True)
 
 
+def _cover(interp, node):
+    """Remember that this call site was reached by an abstract execution (rules that fall back on a syntactic argument
+    for code the executions do not reach ask for this)."""
+    cov = getattr(interp, 'covered', None)
+    if cov is not None and node is not None:
+        cov.add(id(node))
+
+
 def make_interp(ctx):
     ai = codec.make_interp(ctx)
 
@@ -54,6 +62,7 @@ def make_interp(ctx):
 
     def s_sleep(interp, args, kwargs, node):
         log_event('sleep')
+        _cover(interp, node)
         interp.sleeps = getattr(interp, 'sleeps', 0) + 1
         if interp.sleeps > 40:
             raise AbsRaise('NonTermination', node)
@@ -109,6 +118,7 @@ def device_double(ai, ctx, on_send=None, on_receive=None, on_close=None, on_open
 
     def s_send(interp, args, kwargs, node):
         log_event('device', '_send', args[0], args[1] if len(args) > 1 else None)
+        _cover(interp, node)
         if on_send:
             return on_send(interp, args[0], args[1])
         return None
@@ -116,6 +126,7 @@ def device_double(ai, ctx, on_send=None, on_receive=None, on_close=None, on_open
     def s_receive(interp, args, kwargs, node):
         block = kwargs.get('block', args[1] if len(args) > 1 else True)
         log_event('device', '_receive', args[0], block)
+        _cover(interp, node)
         if on_receive:
             return on_receive(interp, args[0], block)
         return None
